@@ -115,7 +115,9 @@ class World:
             except BaseException as e:
                 errs.append("has_avp(%r) raised %s" % (k, type(e).__name__))
                 continue
-            want = bool(listed) and k in named
+            m2 = re.match(r"^(.*)__(\d+)$", k)
+            short = "%s_avp__%s" % (m2.group(1), m2.group(2)) if m2 else "%s_avp" % k     # `origin_host` names `origin_host_avp`
+            want = bool(listed) and (k in named or short in named)
             if has != want:
                 errs.append("has_avp(%r) = %s but the name is %s" % (k, has, "bound" if want else "not bound"))
         return errs
@@ -169,7 +171,9 @@ def do_op(w, op, T):
         new = m.__dict__.get(key)
         if res == "ok" and new is not None:
             return ["U", b, str(s)] + w.obj_tokens(new), res
-        return ["U", b, str(s), "0", "none", "0"], res
+        # the new AVP could not be built (value outside the class's type, generic AVP without class): the container
+        # is left as it was; for the model this step is a no-op (refresh of a coherent state)
+        return ["R"], res
     if kind == "refresh":
         return ["R"], guarded(m.refresh)
     raise KeyError(kind)
